@@ -1340,6 +1340,11 @@ pub fn gen_case(rng: &mut Rng, pool_len: usize, focus: &str, nops: usize) -> Gen
                 }
             }
         }
+        // the candidate may lose its connection while it waits (it is then promoted into the
+        // disconnected group, as its most recently active member)
+        if rng.chance(1, 3) {
+            ops.push(Op::UpdateStatus(keys[fb][16], false, None));
+        }
         // the timeout elapses
         if rng.chance(5, 6) {
             ops.push(Op::ForceReady(bidx));
